@@ -338,7 +338,16 @@ def w_random(seeds):
         rnd = random.Random(seed)
         at = Atoms()
         root = big_tree(rnd) if seed % 60 == 59 else random_tree(rnd, rnd.randint(1, 40))
-        for e in roundtrip_events(root, at, conv, {"seed": seed}):
+        how = {"seed": seed}
+        if seed % 4 == 1 and seed % 60 != 59:
+            # a tree is its child lists: stored parent pointers that name some OTHER node (a subtree attached to a second document,
+            # a node moved without remove_child) are not part of what is saved
+            allnodes = tracked(root).nodes
+            for k, x in enumerate(allnodes):
+                if x is not root and k % 3 == 0:
+                    x.parent = allnodes[(k + 1) % len(allnodes)] if allnodes[(k + 1) % len(allnodes)] is not x else root
+            how["parent_pointers"] = "every third node names another node as its parent"
+        for e in roundtrip_events(root, at, conv, how):
             evs.append(e)
         # "any tree": also the subtree of an inner node, saved while it hangs in the larger model (its parent link set, a
         # tail of its own), and the same node after remove_child (the parent pointer stays behind)
